@@ -34,6 +34,19 @@ class Outcome:
             return f"exception {self.exc_type}: {self.msg}"
         return f"{self.kind}: {self.msg}"
 
+    def numbits(self):
+        """Bit pattern of the number irrespective of int/float spelling (0 and 0.0 agree)."""
+        if self.kind == "num":
+            v = self.value
+            try:
+                f = float(v)
+                if f == v:
+                    return ("num", (f + 0.0).hex() if f != 0 else "0")
+            except OverflowError:
+                pass
+            return ("num", repr(v))
+        return self.bits()
+
     def bits(self):
         if self.kind in ("num", "badnum"):
             v = self.value
@@ -145,3 +158,86 @@ def routes_for(spec_vars, var, point_dict):
         if var in point_dict:
             rs += ROUTES_ONEVAR[2:]
     return rs
+
+
+class Route:
+    """A route object built once (construction is itself an observed call) and queried at several
+    points - the realistic way early objects are used."""
+
+    def __init__(self, route, expr, var):
+        import smoothmath as sm
+        import smoothmath.expression as E
+        self.route = route
+        self.var = var
+        self.expr = expr
+        self.obj = None
+        self.built = None
+        V = lambda: E.Variable(var)
+        r = route
+        if r in ("partial_late", "partial_late_after_expr"):
+            mk = lambda: sm.Partial(expr, V())
+        elif r == "partial_early":
+            mk = lambda: sm.Partial(expr, V(), compute_early=True)
+        elif r == "partial_late_name":
+            mk = lambda: sm.Partial(expr, var)
+        elif r == "partial_early_name":
+            mk = lambda: sm.Partial(expr, var, compute_early=True)
+        elif r.startswith("diff_late"):
+            mk = lambda: sm.Differential(expr)
+        elif r.startswith("diff_early"):
+            mk = lambda: sm.Differential(expr, compute_early=True)
+        elif r.startswith("located"):
+            mk = None
+        elif r.startswith("derivative_late"):
+            mk = lambda: sm.Derivative(expr)
+        elif r.startswith("derivative_early"):
+            mk = lambda: sm.Derivative(expr, compute_early=True)
+        else:
+            raise ValueError(route)
+        if mk is not None:
+            self.built = call(mk, numeric=False)
+            if self.built.kind == "obj":
+                self.obj = self.built.value
+                if r == "partial_late_after_expr":
+                    self.built2 = call(self.obj.as_expression, numeric=False)
+                    if self.built2.kind != "obj":
+                        self.built = self.built2
+                        self.obj = None
+
+    def query(self, point_dict):
+        import smoothmath as sm
+        import smoothmath.expression as E
+        if self.built is not None and self.obj is None:
+            return self.built          # construction failed: that is the outcome of this route
+        P = lambda: sm.Point(**point_dict)
+        V = lambda: E.Variable(self.var)
+        o, r, var = self.obj, self.route, self.var
+        if r.startswith("partial"):
+            return call(lambda: o.at(P()))
+        if r == "diff_late_component_at":
+            return call(lambda: o.component_at(V(), P()))
+        if r == "diff_early_component_at":
+            return call(lambda: o.component_at(var, P()))
+        if r == "diff_late_component_then_at":
+            return call(lambda: o.component(var).at(P()))
+        if r == "diff_early_component_then_at":
+            return call(lambda: o.component(V()).at(P()))
+        if r == "diff_late_at_component":
+            return call(lambda: o.at(P()).component(V()))
+        if r == "diff_early_at_component":
+            return call(lambda: o.at(P()).component(var))
+        if r == "located":
+            return call(lambda: sm.LocatedDifferential(self.expr, P()).component(V()))
+        if r == "located_name":
+            return call(lambda: sm.LocatedDifferential(self.expr, P()).component(var))
+        if r in ("derivative_late", "derivative_early"):
+            return call(lambda: o.at(P()))
+        if r in ("derivative_late_number", "derivative_early_number"):
+            return call(lambda: o.at(point_dict[var]))
+        raise ValueError(r)
+
+
+SYMBOLIC_PATH = {"partial_early", "partial_early_name", "partial_late_after_expr", "diff_early_component_at",
+                 "diff_early_component_then_at", "diff_early_at_component", "derivative_early", "derivative_early_number"}
+FORWARD_SYMBOLIC = {"partial_early", "partial_early_name", "partial_late_after_expr", "derivative_early", "derivative_early_number"}
+REVERSE_SYMBOLIC = {"diff_early_component_at", "diff_early_component_then_at", "diff_early_at_component"}
